@@ -349,8 +349,32 @@ def run_all(tier, seed, exes, driver, acc, values_per_type=None):
         part_b(acc, cfg, exe, driver, cases_b, rng)
         part_c(acc, cfg, exe, driver, seed, tier, rng)
         wr, ng = part_d(acc, cfg, exe, driver, tier, rng, flt)
+        if not nostd:
+            part_index(acc, cfg, exe, rng)
         info[cfg] = {'wrapper_groups': ng, 'wrapper_occurrences': wr, 'types_with_hash_or_deque': len(set(c[1] for c in cases_b))}
     return info
+
+
+def part_index(acc, cfg, exe, rng):
+    """IndexSet / IndexMap: values that compare equal (indexmap's `==` ignores the order) built by inserting the same
+    entries forwards and backwards.  The property speaks of "two values that compare equal"; the model's logical
+    value of an index collection is the entry SEQUENCE, so the model cannot see this - the implementation is asked."""
+    lists = ['0102', '00ff', '050403020100', bytes(rng.randrange(256) for _ in range(9)).hex(), '07']
+    res = run_cases(exe, ['x%d\tindexeq\t-\t-\t%s' % (i, h) for i, h in enumerate(lists)])
+    for i, h in enumerate(lists):
+        r = res.get('x%d' % i)
+        acc.evals += 1
+        if not r or ';' not in r:
+            acc.disagreements.append({'what': 'indexeq gave no answer for %s: %r [%s]' % (h, r, cfg)})
+            continue
+        for part in r.split(';'):
+            f = dict(x.split('=', 1) for x in part.split(' ')[1:] if '=' in x)
+            kind = part.split(' ')[0]
+            if f.get('eq') == 'true' and f.get('bytes') == 'false':
+                acc.failures.append({'class': 'index-insertion-order', 'key': 'Index%s %s' % (kind, h),
+                                     'what': 'two Index%s values with the entries %s compare equal (==) and serialize to different bytes: %s / %s [%s]'
+                                             % ('Set<u8>' if kind == 'set' else 'Map<u8, u16>', h, f.get('first', '?'), f.get('second', '?'), cfg),
+                                     'entries': h, 'cfg': cfg, 'replay_cmd': "printf 'x\\tindexeq\\t-\\t-\\t%s\\n' | %s" % (h, exe)})
 
 
 def run(tier, seed, t0):
